@@ -130,6 +130,33 @@ harnesses! {
             vassert!(r.hi == p && super::c04::mul_bound_ok(&r, &one, b, 0.0, 0), "new_mul: hi == RN(ab) and hi + lo == ab exactly");
         }
     }
+    /// bounded stand-in for the 2Prod theorem: hi + lo == a * b exactly for operands with 31-bit significands and
+    /// exponents within 100 binades of 1 (the exact product is an integer product of the significands)
+    #[kani::solver(kissat)] #[kani::stub(crate::arithmetic::fma, fma_fixed)]
+    fn new_mul_exact_b31() {
+        let a = any_f64!(); let b = any_f64!();
+        let (ea, eb) = (eexp(a), eexp(b));
+        vassume!(a.is_finite() && b.is_finite() && a != 0.0 && b != 0.0 && ea >= 923 && ea <= 1123 && eb >= 923 && eb <= 1123);
+        vassume!(a.to_bits() & ((1u64 << 22) - 1) == 0 && b.to_bits() & ((1u64 << 22) - 1) == 0);
+        let r = TwoFloat::new_mul(a, b);
+        #[cfg(kani)]
+        {
+            let (na, ma, _) = fld(a); let (nb, mb, _) = fld(b);
+            let p = ((ma >> 22) as i128) * ((mb >> 22) as i128);
+            let p = if na != nb { -p } else { p };
+            let anchor = ea + eb - 1075 + 44;
+            match (at_anchor(r.hi, anchor, 70), at_anchor(r.lo, anchor, 70)) {
+                (Some(h), Some(l)) => { vassert!(h + l == p, "new_mul: hi + lo == a * b exactly (31-bit significands)"); }
+                _ => { vassert!(false, "new_mul: words representable at the product's unit"); }
+            }
+        }
+        #[cfg(not(kani))]
+        {
+            let one = TwoFloat { hi: a, lo: 0.0 };
+            vassert!(super::c04::mul_bound_ok(&r, &one, b, 0.0, 0), "new_mul: hi + lo == a * b exactly");
+        }
+        vcover!(r.lo != 0.0, "inexact product reachable");
+    }
     /// new_mul: result normalised when the product is 0 or in [2^-960, 2^1023)
     #[kani::solver(kissat)] #[kani::stub(crate::arithmetic::fma, fma_fixed)]
     fn new_mul_valid() {
